@@ -31,13 +31,13 @@ INFO = {
              '>= 2 generators or a SHORT / history request, resp. export with >= 2 rock types and >= 1 generator.'),
     'require': {
         'quick': {'counters': {'conversions': 1500, 'roundtrips': 1500, 'generator_lists_judged': 1500, 'grids_judged': 1500, 'history_judged': 1500,
-                               'file_scans': 1500, 'exports': 1500, 'rock_partitions_judged': 1500, 'sources_judged': 1500, 'eos_detections': 1500},
+                               'file_scans': 1500, 'exports': 1500, 'rock_partitions_judged': 1500, 'sources_judged': 1500, 'eos_detections': 1500, 'models_with_extra_precision_file': 60, 'real_file_conversions': 9},
                   'seen': {'conversion_call': 5, 'generator_class': 3, 'mop_digit': 200, 'eos_route': 4, 'short_kinds': 6,
                            'history_item_kind': 3, 'atmosphere_type': 3},
                   'nontrivial': 1500},
         'thorough': {'counters': {'conversions': 18000, 'roundtrips': 18000, 'generator_lists_judged': 18000, 'grids_judged': 18000,
                                   'history_judged': 18000, 'file_scans': 18000, 'exports': 18000, 'rock_partitions_judged': 18000,
-                                  'sources_judged': 18000, 'eos_detections': 18000},
+                                  'sources_judged': 18000, 'eos_detections': 18000, 'models_with_extra_precision_file': 600, 'real_file_conversions': 21},
                      'seen': {'conversion_call': 5, 'generator_class': 3, 'mop_digit': 236, 'eos_route': 4, 'short_kinds': 8,
                               'history_item_kind': 3, 'atmosphere_type': 3},
                      'nontrivial': 15000},
@@ -73,6 +73,11 @@ def plan(tier, seed):
     per = 220 if tier == 'quick' else 2500
     shards = [{'kind': 'convert', 'count': per} for _ in range(n // 2)]
     shards += [{'kind': 'export', 'count': per} for _ in range(n // 2)]
+    # the shipped data files as starting models (big ones in the thorough tier only)
+    for main, mesh, size in c01.REAL:
+        if tier == 'quick' and size != 'small':
+            continue
+        shards.append({'kind': 'real', 'file': main, 'mesh': mesh})
     return shards
 
 
@@ -80,8 +85,11 @@ def plan(tier, seed):
 
 def gen_conv_case(rng):
     flav = rng.choice(['AUTOUGH2', 'AUTOUGH2', 'TOUGH2'])
-    c = datacase.gen_case(rng, {'flavour': flav, 'mesh': 'infile', 'blocks': rng.choice([3, 5, 8]), 'extra_precision': []})
     aut = flav == 'AUTOUGH2'
+    force = {'flavour': flav, 'mesh': 'infile', 'blocks': rng.choice([3, 5, 8])}
+    if not (aut and rng.random() < 0.3):
+        force['extra_precision'] = []          # else: the generator picks sections for the AUTOUGH2 extra precision file
+    c = datacase.gen_case(rng, force)
     names = [b['name'] for b in c['blocks']]
     c['param']['option'] = [rng.randint(0, 9) if rng.random() < 0.6 else 0 for _ in range(24)]
     if aut and rng.random() < 0.5:
@@ -167,8 +175,8 @@ def gen_conv_case(rng):
     if aut:
         c['call'] = ('convert_to_TOUGH2', {'MP': rng.random() < 0.3}) if r < 0.6 else (('type', 'TOUGH2') if r < 0.8 else ('both', {'MP': False}))
     else:
-        c['call'] = (('convert_to_AUTOUGH2', {'MP': rng.random() < 0.3, 'simulator': rng.choice(['AUTOUGH2.2', 'AUTOUGH2', 'MULKOM']),
-                                               'eos': rng.choice(['EW', 'EWC', 'EWAV', 'W'])}) if r < 0.7 else ('type', 'AUTOUGH2'))
+        kw = {'MP': rng.random() < 0.3, 'simulator': rng.choice(['AUTOUGH2.2', 'AUTOUGH2', 'MULKOM']), 'eos': rng.choice(['EW', 'EWC', 'EWAV', 'W'])}
+        c['call'] = ('convert_to_AUTOUGH2', kw) if r < 0.55 else (('type', 'AUTOUGH2') if r < 0.75 else ('both', dict(kw, MP=False)))
     return c
 
 
@@ -259,9 +267,17 @@ class Conv(object):
         ctx, c = self.ctx, self.c
         t2d = R.t2data
         base = os.path.join(ctx.tmp, 'c20_a')
+        for f in (base + '.dat', base + '.pdat', os.path.join(ctx.tmp, 'c20_b.dat'), os.path.join(ctx.tmp, 'c20_b.pdat')):
+            if os.path.exists(f):
+                os.remove(f)            # no companion file of an earlier case may be picked up
         try:
             dat0 = c01.build(c)
-            silently(dat0.write, base + '.dat')
+            cfg = c['config']
+            kw = {}
+            if c['flavour'] == 'AUTOUGH2' and cfg['extra_precision']:
+                kw = {'extra_precision': cfg['extra_precision'], 'echo_extra_precision': cfg['echo']}
+                ctx.count('models_with_extra_precision_file')
+            silently(dat0.write, base + '.dat', **kw)
             dat = silently(t2d.t2data, base + '.dat')
         except Exception as e:
             ctx.count('prepare_failed_foreign')
@@ -547,6 +563,11 @@ def run_conversion(ctx, c):
         ok = cv.to_autough2(dat, call, label)
         if ok and not cv.bad:
             cv.roundtrip(dat, 'AUTOUGH2', label)
+        if ok and not cv.bad and call[0] == 'both':
+            lab2 = 'to-TOUGH2:after-to-AUTOUGH2'
+            ok = cv.to_tough2(dat, ('convert_to_TOUGH2', {'MP': False}), lab2)
+            if ok and not cv.bad:
+                cv.roundtrip(dat, 'TOUGH2', lab2)
     ctx.evaluated()
     ctx.case(('convert', repr(sorted((k, repr(v)) for k, v in c.items()))), nontrivial=nontrivial, sample=(nontrivial and len(ctx.samples) < 2))
 
@@ -742,8 +763,87 @@ def run_export(ctx, c):
         ctx.violation('source-names-not-unique', 'exported source names %r' % (names,), case)
 
 
+def load_real(ctx, main, mesh):
+    import shutil
+    t2d = R.t2data
+    d = os.path.join(REPO, 'tests', 'data')
+    src = os.path.join(d, main)
+    work = os.path.join(ctx.tmp, 'real')
+    os.makedirs(work, exist_ok=True)
+    local = os.path.join(work, os.path.basename(main))
+    shutil.copy(src, local)
+    pd = os.path.splitext(src)[0] + '.pdat'
+    if os.path.exists(pd):
+        shutil.copy(pd, os.path.splitext(local)[0] + '.pdat')
+    # private copies of the mesh files too: a later write() would write to the names the model was read with
+    if mesh is None:
+        mf = ''
+    elif isinstance(mesh, str):
+        mf = os.path.join(work, os.path.basename(mesh))
+        shutil.copy(os.path.join(d, mesh), mf)
+    else:
+        mf = [os.path.join(work, os.path.basename(x)) for x in mesh]
+        for x, y in zip(mesh, mf):
+            shutil.copy(os.path.join(d, x), y)
+    dat = silently(t2d.t2data, local, meshfilename=mf)
+    dat.meshfilename = ''            # from here on the mesh lives in the main file
+    return dat
+
+
+def run_real(ctx, spec):
+    main, mesh = spec['file'], spec['mesh']
+    probe = load_real(ctx, main, mesh)
+    aut = probe.type == 'AUTOUGH2'
+    if aut:
+        calls = [('convert_to_TOUGH2', {'MP': False}), ('convert_to_TOUGH2', {'MP': True}), ('type', 'TOUGH2'), ('both', {'MP': False})]
+    else:
+        calls = [('convert_to_AUTOUGH2', {'MP': False, 'simulator': 'AUTOUGH2.2', 'eos': 'EW'}),
+                 ('convert_to_AUTOUGH2', {'MP': True, 'simulator': 'AUTOUGH2', 'eos': 'EWAV'}), ('type', 'AUTOUGH2')]
+    for call in calls:
+        c = {'flavour': probe.type, 'dup_key': False, 'call': call, 'real_file': main}
+        case = {'kind': 'real', 'file': main, 'mesh': mesh, 'call': list(call)}
+        cv = Conv(ctx, c, case)
+        with ctx.guard(case, where='read-real') as g:
+            dat = load_real(ctx, main, mesh)
+        if g.raised is not None:
+            continue
+        # a SHORT section and history requests, if the file has none (first / last blocks, first connection, first generator)
+        if aut and not dat.short_output and dat.grid.num_blocks >= 2:
+            dat.short_output = {'frequency': 1, 'block': [dat.grid.blocklist[0], dat.grid.blocklist[-1]]}
+            if dat.grid.connectionlist:
+                dat.short_output['connection'] = [dat.grid.connectionlist[0]]
+            if dat.generatorlist and call[0] != 'type':
+                dat.short_output['generator'] = [dat.generatorlist[0], dat.generatorlist[-1]]
+        if not aut and not dat.history_block and dat.grid.num_blocks >= 2:
+            dat.history_block = [dat.grid.blocklist[1]]
+            if dat.generatorlist:
+                dat.history_generator = [dat.grid.block[dat.generatorlist[0].block]] if dat.generatorlist[0].block in dat.grid.block else []
+        ctx.count('real_file_conversions')
+        ctx.see('real_file', '%s: %s, %d generators of types %s' % (main, dat.type, len(dat.generatorlist), ' '.join(sorted(set(g.type for g in dat.generatorlist)))))
+        if aut:
+            label = 'to-TOUGH2:' + ('type-setter' if call[0] == 'type' else ('MP' if call[1].get('MP') else 'plain'))
+            ok = cv.to_tough2(dat, call, label)
+            if ok and not cv.bad:
+                cv.roundtrip(dat, 'TOUGH2', label)
+            if ok and not cv.bad and call[0] == 'both':
+                lab2 = 'to-AUTOUGH2:after-to-TOUGH2'
+                ok = cv.to_autough2(dat, ('convert_to_AUTOUGH2', {}), lab2)
+                if ok and not cv.bad:
+                    cv.roundtrip(dat, 'AUTOUGH2', lab2)
+        else:
+            label = 'to-AUTOUGH2:' + ('type-setter' if call[0] == 'type' else ('MP' if call[1].get('MP') else 'plain'))
+            ok = cv.to_autough2(dat, call, label)
+            if ok and not cv.bad:
+                cv.roundtrip(dat, 'AUTOUGH2', label)
+        ctx.evaluated()
+        ctx.case(('real', main, repr(call)), nontrivial=True, sample=(len(ctx.samples) < 1))
+
+
 def run_shard(ctx, spec):
     rng = ctx.rng
+    if spec['kind'] == 'real':
+        run_real(ctx, spec)
+        return
     for _ in range(spec['count']):
         if spec['kind'] == 'convert':
             run_conversion(ctx, gen_conv_case(rng))
@@ -752,6 +852,9 @@ def run_shard(ctx, spec):
 
 
 def replay(ctx, case):
+    if case['kind'] == 'real':
+        run_real(ctx, {'file': case['file'], 'mesh': case['mesh']})
+        return
     if case['kind'] == 'convert':
         c = case['descriptor']
         c['call'] = tuple(c['call'])
